@@ -11,9 +11,9 @@ route over the path (`Fits`), for every constraint environment.
 `C01_fits_reconstructs`: what `Fits` means in the property's words — substituting the values for the parameters
 reproduces the path byte for byte, the names are the expansion's names in order, every value is non-empty and valid
 UTF-8, dynamic values contain no '/', every constrained value is accepted.
-Status: the statement on live templates (`C01_match_is_live_template`) is proved for histories in which every
-inserted template has pairwise different expansions (not `((/a))`, `(/a)(/a)`); for all histories the statement on
-stored routes (`C01_match_genuine`) holds and the duplicate-expansion family is tied by the `dup` suite. -/
+Status: proved, on stored routes (`C01_match_genuine`) and on live templates (`C01_match_is_live_template`), for
+every history — including templates two of whose expansions have the same parts (`((/a))`, `(/a)(/a)`,
+`(/a)(/\\a)`): the later expansion overwrites the earlier one, a catch-all keeps the earlier one (`pick`). -/
 
 theorem C01_match_genuine (env : Env) (r : Router) (h : Reachable r) (path : Bytes) (m : Match)
     (hm : r.search env path = some m) :
@@ -41,7 +41,7 @@ example : Node.search envT tw [47,97,47,109,47,98,47,109] [] = some (iw, [([119]
 /-- **On live templates.** `Live r L`: `r` was reached from `Router::new` by any sequence of calls and `L` is the list
 of templates inserted and not deleted since. A match reports a live template, the data inserted with it, one of its
 expansions (as `expanded`, or `none` when the template has no groups), and parameters that lay exactly that expansion
-over the path. Hypothesis of `Live`: every template offered to `insert` has pairwise different expansions. -/
+over the path. -/
 theorem C01_match_is_live_template (env : Env) (r : Router) (L : List LiveT) (h : Live r L) (path : Bytes) (m : Match)
     (hm : r.search env path = some m) :
     ∃ lt ∈ L, ∃ e ∈ lt.exps, m.template = lt.template ∧ m.data = lt.data ∧
